@@ -11,6 +11,7 @@ fn main() {
     }
     println!("addrs {:?}", res.statement_addresses);
     let (code, addrs) = instr_sx::program(&res);
-    let a = ask(&[format!("(wf.check {} {})", code, addrs)]);
+    let a = ask(&[format!("(wf.check {} {})", code, addrs), format!("(wfm.check {} {})", code, addrs)]);
     println!("{}", a[0]);
+    println!("{}", a[1]);
 }
